@@ -221,6 +221,10 @@ def judge(scn, want_text=True):
     enc = scn.get("encoding") or "latin_1"
     # control: the clean file decoded by a fresh reader
     cstored, cout = _control(scn)
+    if cout.kind != "stop" or len(cout.items) != len(stored):
+        # the fault-free file itself does not read back (or its reader does not terminate): that is
+        # C03 / C05 / C06 / C07's business; without a control there is nothing for C10 to judge
+        return [], {"kind": "no_control", "delivered": 0, "recno": None, "class": None, "steps": 0}
     _, out = corrupt.run_file(dict(scn, reader="IpmReader"), image)
     info = {"kind": out.kind, "delivered": len(out.items), "recno": out.recno, "class": None, "steps": out.steps}
     fails = []
